@@ -255,7 +255,7 @@ var intrinsicNames = map[string]bool{}
 func init() {
 	for _, n := range strings.Fields(`zzRegister zzU8 zzU16 zzU32 zzU64 zzBool zzInt zzPick zzBytesCap zzBytes zzString zzAssume zzAssert
 		zzFail zzAssertEqBytes zzAssertEqStr zzAssertEqStrBytes zzReach zzObserve zzAnd zzOr zzImplies zzNot zzIteInt zzParam zzEqStr
-		zzEqBytes zzEqStrBytes zzConcrete zzMarkCaller zzIsFreed zzSameMem zzSameMemStr zzDisjoint zzHavocFreed zzNative zzFreeze`) {
+		zzEqBytes zzEqStrBytes zzConcrete zzMarkCaller zzIsFreed zzSameMem zzSameMemStr zzDisjoint zzHavocFreed zzNative zzFreeze zzAssertLive`) {
 		intrinsicNames[n] = true
 	}
 }
@@ -558,6 +558,15 @@ func (ex *Exec) intrinsic(st *State, fr *Frame, name string, args []Value) Value
 			return ts.False
 		}
 		return ts.Bool(ex.obj(st, s.Obj).freed)
+	case "zzAssertLive":
+		// ghost assertion: the memory behind b has not been recycled into the pool
+		sv := ex.sliceAsStr(args[0])
+		label := ex.argStr(st, args[1])
+		ex.stats.Labels["assert:"+label]++
+		if sv.Obj != 0 && ex.obj(st, sv.Obj).freed {
+			ex.check(st, ts.True, "uaf", label)
+		}
+		return unit
 	case "zzSameMem", "zzSameMemStr":
 		a, b := ex.sliceAsStr(args[0]), ex.sliceAsStr(args[1])
 		if a.Obj != b.Obj {
